@@ -245,7 +245,9 @@ def make_machine(col, stage, tier, check_c10, check_c15, weights):
         def init(self, data):
             col.check_deadline()
             d = Draw(data)
-            bt = gen_break_text(d) if (check_c10 and d.chance(0.5)) else None
+            bt = None
+            if check_c10 and d.chance(0.6):
+                bt = d.choice(['*', '* ! .delete_id', 'wl_display, wl_registry', '.sync, .bind, .get_registry', '* ! wl_callback', 'wl_*', '.new']) if d.chance(0.6) else gen_break_text(d)
             if bt in MALFORMED or bt == '!':
                 bt = None
             self.case = dict(break_text=bt, ops=[])
@@ -280,6 +282,8 @@ def make_machine(col, stage, tier, check_c10, check_c15, weights):
             P = histgen.protocols()
             decl = P[m['iface']].msg(m['name']) if m['iface'] in P and not (m['iface'] == 'wl_registry' and m['name'] == 'bind') else None
             spec = gdbsim.closure_of_message(m, g.side, addr, decl)
+            # gdb.InferiorThread.name is None for threads the program never named
+            spec['thread_name'] = d.choice([None, None, 'main', 'worker-1']) if thread != 1 else d.choice(['main', None])
             self._do(['msg', addr, thread, spec])
 
         @rule(data=st.data())
@@ -296,12 +300,12 @@ def make_machine(col, stage, tier, check_c10, check_c15, weights):
             if self.ex is None or self.ex.quit:
                 return
             d = Draw(data)
-            k = d.weighted([(6, 'breakpoint'), (3, 'connection'), (4, 'resume'), (1, 'quit'), (3, 'other')]) if check_c10 else d.weighted(
+            k = d.weighted([(5, 'breakpoint'), (6, 'connection'), (4, 'resume'), (1, 'quit'), (3, 'other')]) if check_c10 else d.weighted(
                 [(1, 'breakpoint'), (3, 'connection'), (2, 'resume'), (3, 'other')])
             if k == 'breakpoint':
                 word, arg = d.choice(['breakpoint', 'b', 'break', 'wlbreakpoint']), gen_break_text(d)
             elif k == 'connection':
-                word, arg = d.choice(['connection', 'c', 'conn']), d.choice(['A', 'B', 'C', 'all', 'a', 'Z'])
+                word, arg = d.choice(['connection', 'c', 'conn']), d.choice(['A', 'B', 'A', 'B', 'C', 'all', 'a', 'Z', 'Q', 'nope'])
             elif k == 'resume':
                 word, arg = d.choice(['resume', 'r', 'res']), ''
             elif k == 'quit':
